@@ -211,15 +211,24 @@ func typeName(t *parser.Type) string {
 		return ""
 	}
 
+	// the result is written through the caller's stringBuilder, which does the escaping
+	sb := stringBuilder{raw: true}
+	cppType := ""
+	if t.CppType != "" {
+		cppType = " cpp_type " + strings.ReplaceAll(joinQuotes(t.CppType), `"`, "##34;") + " "
+	}
 	name := t.Name
 	if t.KeyType != nil && t.ValueType != nil {
-		name = fmt.Sprintf("%s<%s,%s>", t.Name, typeName(t.KeyType), typeName(t.ValueType))
+		name = fmt.Sprintf("%s%s<%s,%s>", t.Name, cppType, typeName(t.KeyType), typeName(t.ValueType))
 	} else if t.ValueType != nil && t.KeyType == nil {
-		name = fmt.Sprintf("%s<%s>", t.Name, typeName(t.ValueType))
+		if t.Name == "list" {
+			name = fmt.Sprintf("%s<%s>%s", t.Name, typeName(t.ValueType), cppType)
+		} else {
+			name = fmt.Sprintf("%s%s<%s>", t.Name, cppType, typeName(t.ValueType))
+		}
 	}
 
 	if t.Annotations != nil {
-		var sb stringBuilder
 		printAnnotation(&sb, t.Annotations)
 		name = name + sb.String()
 	}
@@ -228,10 +237,11 @@ func typeName(t *parser.Type) string {
 
 type stringBuilder struct {
 	buffer strings.Builder
+	raw    bool
 }
 
 func (s *stringBuilder) writeString(str string) {
-	if strings.Contains(str, "&") {
+	if !s.raw && strings.Contains(str, "&") {
 		// 将 & 转义为 &amp;
 		str = strings.ReplaceAll(str, "&", "&amp;")
 	}
